@@ -27,6 +27,7 @@ def run(ctx):
     _run_main(ctx)
     _shared_r4(ctx)
     _shared_r5(ctx)
+    _round8(ctx)
 
 
 def _run_main(ctx):
@@ -126,3 +127,11 @@ def _shared_r5(ctx):
     from rules import arms as A
     with ctx.rule('R11.8', "a refused channel open cannot drop another channel's consumer senders: an occupied id is rejected before anything is stored (shared with C10)", floor=2) as r:
         A.include(ctx, r, 'c10', 'R10.1', pick=('occupied-error', 'vacant-inserts-that-id', 'vacant-only'))
+
+
+def _round8(ctx):
+    """Rules that are necessary conditions of this property too (found by seeding round 8)."""
+    from rules import arms as A
+    with ctx.rule('R11.9', "a dropped Connection closes like a closed one, and a reply plus a close error fit a channel's reply queue (shared with C05)", floor=2) as r:
+        A.include(ctx, r, 'c05', 'R05.5', pick=('drop-closes',))
+        A.include(ctx, r, 'c05', 'R05.3', pick=('slot/handle-pairing',))
